@@ -14,6 +14,7 @@ ReqFails(ln) ==
       reg == Regions(lay, ln.sign)
       o == ln.obs
   IN (IF o.fragLen # o.actualLen THEN {"frag_len_equals_pdu_size"} ELSE {})
+     \cup (IF o.wrapCalls # 1 THEN {"exactly_stub_plus_padding_region_is_sealed"} ELSE {})   \* sent without / with more than one pass through the security context
      \cup (IF o.authLen # ln.sig THEN {"auth_len_equals_signature_size"} ELSE {})
      \cup (IF o.actualLen # lay.fragLen THEN {"pdu_size_as_specified"} ELSE {})
      \cup (IF ln.vt > 0 /\ o.vtAt # lay.vtOff THEN {"verification_trailer_at_next_4_byte_boundary"} ELSE {})
